@@ -6,7 +6,19 @@ import re
 
 NAMES = ["Package", "Source", "Depends", "Description", "X-Foo", "Section", "Arch", "Uploaders"]
 WORDS = ["foo", "bar", "1.0-1", "libc6 (>= 2.3)", "a b  c", "any", "x#y", "ünï", "${misc:Depends}",
-         "http://x.org/", ".", "a,b", "-q", "k=v"]
+         "http://x.org/", ".", "a,b", "-q", "k=v",
+         # characters str.splitlines() would break at, but which are ordinary here
+         "form\x0cfeed", "nel\x85x", "ls\u2028x", "fs\x1cgs\x1dx"]
+
+
+def nl_lines(text, keepends=True):
+    """Split on "\n" ONLY (str.splitlines also breaks at \x0b \x0c \x1c-\x1e \x85 U+2028
+    U+2029, which are ordinary characters of a deb822 line)."""
+    parts = text.split("\n")
+    out = [p + "\n" if keepends else p for p in parts[:-1]]
+    if parts[-1] != "":
+        out.append(parts[-1])
+    return out
 
 
 def variants(name):
@@ -46,7 +58,7 @@ def gen_body(rng, name, style=None, terminated=True):
 def norm_value(after_colon):
     """What the dict interface is documented to return for the text after 'Name:'
     (comments dropped, first line stripped, final newline hidden)."""
-    lines = [l for l in after_colon.splitlines(True) if not l.startswith("#")]
+    lines = [l for l in nl_lines(after_colon) if not l.startswith("#")]
     if not lines:
         return ""
     if len(lines) == 1:
@@ -96,7 +108,7 @@ def mini_parse_field(text):
     Returns (name, after_colon) or None."""
     if text == "":
         return None
-    lines = text.splitlines(True)
+    lines = nl_lines(text)
     for i, l in enumerate(lines):
         if not l.endswith("\n") and i != len(lines) - 1:
             return None
@@ -236,12 +248,12 @@ def gen_doc(rng, dup=False, max_paras=4, max_fields=6):
 
 def parse(text, dup=False):
     from debian._deb822_repro import parse_deb822_file
-    return parse_deb822_file(text.splitlines(True), accept_files_with_duplicated_fields=dup)
+    return parse_deb822_file(nl_lines(text), accept_files_with_duplicated_fields=dup)
 
 
 def sut_summary(text, dup=True):
     """Fresh parse with the SUT: [[(name, value)...] per non-empty paragraph]."""
-    if text and not text.endswith("\n") and text.splitlines()[-1].strip() == "":
+    if text and not text.endswith("\n") and nl_lines(text, False)[-1].strip() == "":
         # a blank-only unterminated last line carries no content; terminating it keeps this
         # comparison clear of the parser's own trouble with that shape (C01, not claimed)
         text += "\n"
